@@ -189,6 +189,8 @@ class SpecCtx(object):
         env = self._st.env
         if k in env:
             return env[k]
+        if k == "yielded":
+            return self._st.yielded
         raise Unsupported("contract refers to unknown local %r" % (k,))
 
     def has_local(self, k):
